@@ -160,6 +160,61 @@ theorem findLicenses_spec {tbl : LicenseMap} {paths : List Text} {fd : Found}
   have := findLoop_spec paths _ _ hp (inv_init tbl) h
   simpa using this
 
+theorem findLoop_single {st st1 : Found} {p : Text} (h : findStep st p = some st1) :
+    findLoop st [p] = some st1 := by simp [findLoop, h]
+
+/-- the loop succeeds exactly when no identifier is carried twice -/
+theorem findLoop_some_iff {tbl : LicenseMap} (paths : List Text) (st : Found)
+    (hp : plainNames tbl paths = true) (hi : Inv tbl st) :
+    (∃ st', findLoop st paths = some st') ↔
+      (((paths.filter isLicFile).map (idOf tbl)).Nodup ∧
+        ∀ p ∈ paths.filter isLicFile, hasLic st.licenses (idOf tbl p) = false) := by
+  induction paths generalizing st with
+  | nil => simp [findLoop]
+  | cons p ps ih =>
+    have hp' := hp
+    simp only [plainNames, List.all_cons, Bool.and_eq_true] at hp
+    have hps : plainNames tbl ps = true := by simpa [plainNames] using hp.2
+    cases hl : isLicFile p with
+    | false =>
+      have hs : findStep st p = some st := by simp [findStep, hl]
+      simp only [findLoop, hs, List.filter_cons, hl, Bool.false_eq_true, ↓reduceIte]
+      exact ih st hps hi
+    | true =>
+      cases hd : hasLic st.licenses (idOf tbl p) with
+      | true =>
+        have hs : findStep st p = none := by
+          simp only [findStep, hl, Bool.not_true, Bool.false_eq_true, ↓reduceIte, resolveId_eq hi hp.1]
+          simp [idOf] at hd; simp [hd]
+        simp only [findLoop, hs, List.filter_cons, hl, ↓reduceIte]
+        constructor
+        · rintro ⟨_, h⟩; cases h
+        · rintro ⟨_, h⟩
+          have := h p (by simp)
+          rw [hd] at this; cases this
+      | false =>
+        obtain ⟨st1, hs⟩ : ∃ st1, findStep st p = some st1 := by
+          simp only [findStep, hl, Bool.not_true, Bool.false_eq_true, ↓reduceIte, resolveId_eq hi hp.1]
+          simp [idOf] at hd; simp [hd]
+        have hspec := findLoop_spec [p] st st1 (by simpa [plainNames] using hp.1) hi (findLoop_single hs)
+        have hlic : st1.licenses = st.licenses ++ [(idOf tbl p, p)] := by
+          rw [hspec.2.1]; simp [hl, entryOf, idOf]
+        simp only [findLoop, hs, List.filter_cons, hl, ↓reduceIte]
+        rw [ih st1 hps hspec.1]
+        simp only [List.map_cons, List.nodup_cons, List.mem_cons, forall_eq_or_imp, hd, true_and, hlic,
+          hasLic_snoc, Bool.or_eq_false_iff, beq_eq_false_iff_ne, List.mem_map, not_exists, not_and]
+        constructor
+        · rintro ⟨hn, hq⟩
+          exact ⟨⟨fun q hqm heq => (hq q hqm).2 heq.symm, hn⟩, fun q hqm => (hq q hqm).1⟩
+        · rintro ⟨⟨hne, hn⟩, hq⟩
+          exact ⟨hn, fun q hqm => ⟨hq q hqm, fun heq => hne q hqm heq.symm⟩⟩
+
+theorem findLicenses_some_iff {tbl : LicenseMap} (paths : List Text) (hp : plainNames tbl paths = true) :
+    (∃ fd, findLicenses tbl paths = some fd) ↔ ((paths.filter isLicFile).map (idOf tbl)).Nodup := by
+  unfold findLicenses
+  rw [findLoop_some_iff paths _ hp (inv_init tbl)]
+  simp [hasLic]
+
 /-- membership in the licences found, in the words of the specification -/
 theorem mem_licenses_iff {tbl : LicenseMap} {paths : List Text} {fd : Found}
     (hp : plainNames tbl paths = true) (h : findLicenses tbl paths = some fd) (k p : Text) :
